@@ -1792,6 +1792,69 @@ def rt_lateattr(req):
 RT['lateattr'] = rt_lateattr
 
 
+def rt_truth_history(req):
+    """an as_forged callable whose truth value changes with its history (a container that is empty, filled, drained): every
+    retrieval - inspect.signature and sigtools.signature, interleaved with calls - reports the instance's signature, never its
+    class's, and two instances do not answer for each other"""
+    problems = []
+
+    def store(item, *, priority=0):
+        return ('stored', item, priority)
+
+    class Queue(object):
+        __signature__ = specifiers.as_forged
+
+        def __init__(self, limit=10):
+            self.items = []
+
+        def __len__(self):
+            return len(self.items)
+
+        @specifiers.forwards_to_function(store)
+        def __call__(self, *args, **kwargs):
+            self.items.append(args)
+            return store(*args, **kwargs)
+
+        def drain(self):
+            del self.items[:]
+
+    class Flagged(Queue):
+        def __bool__(self):
+            return False
+    for cls in (Queue, Flagged):
+        q, other = cls(), cls()
+        with warnings.catch_warnings():
+            warnings.simplefilter('ignore')
+            other('x')
+            want = str(sigtools.signature(other))
+            ctor = str(inspect.signature(cls))
+        if want == ctor:
+            problems.append('harness: instance and constructor signatures coincide')
+        for history in itertools.product(('inspect', 'sigtools', 'call', 'drain'), repeat=3):
+            q.drain()
+            for step, op in enumerate(history):
+                if op == 'call':
+                    q(1, priority=2)
+                    continue
+                if op == 'drain':
+                    q.drain()
+                    continue
+                with warnings.catch_warnings():
+                    warnings.simplefilter('ignore')
+                    got = str((inspect.signature if op == 'inspect' else sigtools.signature)(q))
+                if got != want:
+                    problems.append('truth-value-changes-answer: %s.signature of a %s instance holding %d items (%s) after the history %s reports %s; '
+                                    'the same instance non-empty is %s and %s is what the class takes' % (
+                                        op, cls.__name__, len(q), 'falsy' if not q else 'truthy', history[:step + 1], got, want, ctor))
+                    break
+            if problems:
+                break
+    return ('ok', tuple(problems[:2]), 'probed')
+
+
+RT['truth_history'] = rt_truth_history
+
+
 _D39_SRC = '''%s
 class K:
     def __init__(self, a: int, b: str = 'x') -> None: pass
